@@ -113,6 +113,13 @@ func NewSigningChain(keyType string, withIntermediate bool) (*SigningChain, erro
 // NewSigningChainIssuer lets the caller choose the curve of the issuing CA ("p256", "p384", "p521"),
 // which determines the hash of the signature ON the signer certificate (SHA-256/384/512).
 func NewSigningChainIssuer(keyType string, withIntermediate bool, issuerCurve string) (*SigningChain, error) {
+	return NewSigningChainSerial(keyType, withIntermediate, issuerCurve, false)
+}
+
+// NewSigningChainSerial: with sameSerial the signer certificate gets the SAME serial number as the
+// intermediate certificate that issued it (serial numbers are unique per issuer only; small PKIs that
+// count from 1 at every CA produce exactly this).
+func NewSigningChainSerial(keyType string, withIntermediate bool, issuerCurve string, sameSerial bool) (*SigningChain, error) {
 	root, err := newCACurve("verif smime root", issuerCurve)
 	if err != nil {
 		return nil, err
@@ -155,8 +162,12 @@ func NewSigningChainIssuer(keyType string, withIntermediate bool, issuerCurve st
 		}
 		sc.Key, pub = k, &k.PublicKey
 	}
+	leafSerial := nextSerial()
+	if sameSerial && sc.Intermediate != nil {
+		leafSerial = sc.Intermediate.SerialNumber
+	}
 	tpl := &x509.Certificate{
-		SerialNumber: nextSerial(), Subject: pkix.Name{CommonName: "verif signer", Organization: []string{"verif"}},
+		SerialNumber: leafSerial, Subject: pkix.Name{CommonName: "verif signer", Organization: []string{"verif"}},
 		NotBefore: time.Now().Add(-time.Hour), NotAfter: time.Now().Add(240 * time.Hour),
 		KeyUsage: x509.KeyUsageDigitalSignature, ExtKeyUsage: []x509.ExtKeyUsage{x509.ExtKeyUsageEmailProtection},
 		EmailAddresses: []string{"sender@verif.example"},
